@@ -107,6 +107,56 @@ CLAIMED = {
                 "theorem. No DAC/MAC permissions modelled. Known finding F-H (41..127 links).",
         "technique": "Coq proof (simulation between two component-queue machines over an abstract FS) + differential against the kernel's raw openat2",
     },
+    "C02": {
+        "text": "Machine-checked theorems over all kernel answers (= every attacker acting at any syscall boundary): the emulated walk "
+                "hands out a completed lookup only through final_check, final_check completes only if check_current passed, a '..' "
+                "step is discarded unless check_current passed right after it; the openat2 backend issues at most 16 attempts and "
+                "EAGAIN never becomes a result; without an attacker the result lies in the root's tree. Runtime: deterministic "
+                "preemption by the supervisor -- 12 lookups x every relevant boundary of the baseline trace x 10 attacker actions "
+                "(thorough: exhaustive + do/undo pairs); oracle: returned inode / link body belongs to the set of inodes that were inside the root.",
+        "note": COMMON_NOTE + "Partial: that a passing check_current implies 'inside the root at that moment' rests on the kernel's d_path "
+                "rendering of /proc/thread-self/fd/N (attacker assumptions A1-A3 of DESIGN.md); this step is exercised by the schedule "
+                "runs, not proved. Kernel atomicity of one openat2 call is assumed.",
+        "technique": "Coq proof (parametric walk: results only flow through the checks; all responses) + schedule-exhaustive single-preemption runs + trace replay",
+    },
+    "C03": {
+        "text": "Machine-checked theorems over all kernel answers: every effectful call of every mutating Root operation names ONE component "
+                "relative to a descriptor and never follows it (C05 predicate); remove_all refuses '.'/'..'; a path without a final name "
+                "reduces to 'resolve parent, close, InvalidArgument'. Runtime: whole-sandbox snapshots (root, its parent, siblings): 15 "
+                "operation shapes x 21 escaping spellings, and 15 mutating calls x every relevant boundary x 10 attacker actions; oracle: no "
+                "entry of a never-inside directory is added/removed/replaced/modified.",
+        "note": COMMON_NOTE + "Partial: that the parent descriptor is inside the root under attack is C02's (partly assumed) statement; the "
+                "effects themselves are judged by the snapshot oracle on sampled/exhaustive schedules.",
+        "technique": "Coq proof (all responses) + schedule-exhaustive single-preemption runs with whole-sandbox snapshot oracle",
+    },
+    "C04": {
+        "text": "Machine-checked: emulated walk = kernel reference walk on every well-formed static FS within 40 link traversals (C01); every "
+                "parent-based operation is the backend's lookup of the parent followed by a backend-independent continuation (program "
+                "equivalence without funext); refused open flags and NUL paths are refused identically before any lookup. Direct differential "
+                "(no model): every Root operation on random trees run with and without openat2 -- outcome, errno, object, F_GETFL&~O_NOFOLLOW, "
+                "FD_CLOEXEC and the complete resulting tree compared.",
+        "note": COMMON_NOTE + "Partial: equivalence of partial lookups (symlink stack vs ancestor probing, used by mkdir_all) and of the final "
+                "trees is decided by the differential only. Known finding F-N (O_DIRECTORY bit of F_GETFL when the result is the root itself).",
+        "technique": "Coq proof (C01 simulation + program-equivalence factorisation) + two-backend differential on real executions",
+    },
+    "C13": {
+        "text": "Machine-checked theorems over all kernel answers: remove_all refuses '.', '..' and names with '/' before touching anything; "
+                "every open forbids following, every unlink names one component relative to a descriptor of the walk; descriptors balanced. "
+                "Runtime: whole-sandbox snapshots on deep/wide subtrees with links to siblings/parents/outside x path spellings (difference must "
+                "be exactly the named entry and what is below it), 2-4 racing callers per path, and links swapped in at every boundary of a running remove_all.",
+        "note": COMMON_NOTE + "Partial: the functional post-condition on the tree and the convergence of concurrent callers are decided by the "
+                "snapshot / race / schedule runs, not by a theorem (no mutable FS model); races use the real scheduler.",
+        "technique": "Coq proof (refusals, discipline, balance; all responses) + snapshot differential + racing callers + attacker schedules",
+    },
+    "C14": {
+        "text": "Machine-checked: parent_and_name is (in-root resolution of everything before the last '/', last component) for every byte "
+                "string, the name is non-empty and '/'-free and passed on unresolved; a path without a final name reduces the whole operation "
+                "to 'resolve parent, close, InvalidArgument' for every continuation; all calls single-component/no-follow; exact mknod S_IFMT "
+                "decode; the parent resolution equals the kernel's (C01). Runtime: snapshot difference of every successful call = exactly "
+                "(raw-openat2 resolution of the parent, final name); final symlinks not followed; create_file's fd is the file under that name.",
+        "note": COMMON_NOTE + "The effect of the single *at call itself is the kernel's; equality of the resulting tree is judged by the snapshot oracle.",
+        "technique": "Coq proof (path-split theorems for all byte strings, program equivalence) + snapshot differential against raw openat2 + trace replay",
+    },
 }
 
 PENDING_REASON = "check not registered yet in this round (design in DESIGN.md §%s; being built)"
